@@ -111,3 +111,29 @@ pub fn ordered_then_unordered_native(a: u8, o: u8, b: u8) -> u32 {
     }
     1
 }
+
+/// Native replay body for the E2 query `e2_assembler_insert_no_empty_range` (C01 / C03), and demonstration for
+/// finding 20, on a real `Assembler` read unordered: a zero-length chunk arrives at offset 5 (a peer may send
+/// an empty STREAM frame anywhere), then bytes 7..9 arrive and are read, then a retransmission 3..10 that
+/// overlaps them.  Every stream offset may be handed to the application once.
+pub fn empty_frame_native(_x: u8) -> u32 {
+    let mut a = Assembler::new();
+    a.ensure_ordering(false).unwrap();
+    a.insert(5, Bytes::new(), 0).unwrap();
+    a.insert(7, Bytes::from_static(b"hi"), 2).unwrap();
+    let mut seen = [0u8; 16];
+    let mut drain = |a: &mut Assembler| {
+        while let Some(c) = a.read(usize::MAX, false) {
+            for k in 0..c.bytes.len() {
+                let off = c.offset as usize + k;
+                seen[off] += 1;
+                assert!(seen[off] == 1, "stream offset {} was delivered {} times", off, seen[off]);
+            }
+        }
+    };
+    drain(&mut a);
+    a.insert(3, Bytes::from_static(b"defghij"), 7).unwrap();
+    drain(&mut a);
+    assert!(seen[3..10].iter().all(|&n| n == 1), "bytes 3..10 must all have been delivered");
+    1
+}
